@@ -9,8 +9,9 @@ from ..common import arg_term, contains_call, field_path, assigns_of_return
 from .. import tables
 
 TEXT = ("G1: in reload, refresh and reload_until every call with a (transitive) write effect on replica state is "
-        "edge-dominated by `has_staging() == false` (or is a delegation to one of those three), and the true edge returns "
-        "Err. G2: every Ok(Some(_)) return of commit is preceded by the loop over the whole document map that calls "
+        "edge-dominated by `has_staging() == false` (or is a delegation to one of those three), the true edge returns "
+        "Err, and the documents / block map are written only behind the success edge of DataStorage::reload, which has "
+        "a staging test of its own (a refusal leaves the replica untouched). G2: every Ok(Some(_)) return of commit is preceded by the loop over the whole document map that calls "
         "RevisionTree::commit, and the pack writer clears the data stage. G3: unstage clears the data stage, calls "
         "RevisionTree::unstage for every tree of the whole map and removes the trees left empty. G4 (table agreement): "
         "keys, record arities and positional layout written by stage / DataStorage::stage equal those read by "
@@ -78,6 +79,36 @@ def run(facts, res):
                 if oks:
                     res.violation("G1", "%s|staged-branch-returns-ok" % name, "%s can return Ok on the has_staging() == true branch" % name, b.loc())
     res.floor("G1", "state-writing call sites in reload/refresh/reload_until", n1, 6)
+    # G1c: a refusal leaves the replica as it was: the storage layer has a staging test of its own (DataStorage::reload
+    # refuses when the data stage is not empty - possible although no tree is staged, after create_object + remove_object),
+    # so the documents / block map may be cleared only after that call has succeeded
+    from ..conds import success_dominates
+    DSR = "datastorage::DataStorage::reload"
+    dsr = facts.body(DSR)
+    refuses = dsr is not None and any(True for _ in assigns_of_return(dsr, "Err"))
+    n1c = 0
+    for name in GUARDED_OPS:
+        b = facts.body(name)
+        if b is None or not refuses:
+            continue
+        rs = [s_ for s_ in cg.sites[b.path] if not s_.fanout and any(t_.path == DSR or (t_.impl_adt == "melda::Melda" and not t_.public and cg.reaches(t_, DSR))
+                                                                 for t_ in s_.targets)]
+        if not rs:
+            continue
+        for s_ in cg.sites[b.path]:
+            if s_ in rs:
+                continue
+            e_ = eff.site_effects(s_) & {("melda::Melda", "documents"), ("melda::Melda", "deltas")}
+            if not e_ or any(t_.path in GUARDED_OPS for t_ in s_.targets):
+                continue
+            n1c += 1
+            ok_ = any(success_dominates(b, r_.block, s_.block, facts) for r_ in rs)
+            res.instance("G1", "%s: %s (writes %s) only after DataStorage::reload accepted: %s" % (name, s_.name(), sorted(f for _, f in e_), ok_), s_.loc())
+            if not ok_:
+                res.violation("G1", "%s|state-cleared-before-storage-refusal:%s" % (name, s_.name()),
+                              "%s calls %s (writes %s) before DataStorage::reload had the chance to refuse (non-empty data stage): the operation "
+                              "returns Err but the replica has already lost its documents" % (name, s_.name(), sorted(f for _, f in e_)), s_.loc())
+    res.floor("G1", "documents / block-map writes in operations that call DataStorage::reload", n1c, 2)
 
     # ------------------------------------------------------------------ G2
     c = facts.body("melda::Melda::commit")
